@@ -61,7 +61,7 @@ class Gen:
             return ["frozenset", self.type(d - 1, True)]
         c = r.choice(["list", "deque", "seq", "mseq", "vtuple", "opt", "set", "frozenset", "aset", "dict", "odict",
                       "ddict", "mapping", "mmapping", "mproxy", "chainmap", "counter", "tuple", "utuple",
-                      "ntuple", "tdict", "newtype", "stype", "dc", "dc", "union", "final"])
+                      "ntuple", "tdict", "newtype", "stype", "alias695", "dc", "dc", "union", "final"])
         if c in ("list", "deque", "seq", "mseq", "vtuple", "opt"):
             return [c, self.type(d - 1)]
         if c in ("set", "frozenset", "aset"):
@@ -92,6 +92,8 @@ class Gen:
             return ["tdict", self.fresh("TD"), [[f"k{i}", self.type(d - 1), r.random() < 0.6] for i in range(n)]]
         if c == "newtype":
             return ["newtype", self.fresh("NTy"), self.type(d - 1)]
+        if c == "alias695":
+            return ["alias695", self.fresh("TA"), self.type(d - 1)]
         if c == "stype":
             return ["stype", self.fresh("SW"), self.type(d - 1)]
         if c == "final":
@@ -227,7 +229,7 @@ class Gen:
             return ["none"] if r.random() < 0.3 else self.value(T[1])
         if tag == "union":
             return self.value(r.choice(T[1]))
-        if tag == "newtype":
+        if tag in ("newtype", "alias695"):
             return self.value(T[2])
         if tag == "stype":
             return ["sobj", T[1], self.value(T[2])]
